@@ -22,7 +22,7 @@ Section WithHasher.
   Definition hash_path (n : node H) (path : key) (sibs_rev : list (node H)) : node H :=
     hash_up n (rev path) sibs_rev.
 
-  Inductive verify_err := TooManySiblings | RootMismatch.
+  Inductive verify_err := TooManySiblings | RootMismatch | TerminalOutOfPath.
 
   Record verified := {
     vp_path : key;                       (* the proven path: first |siblings| bits of the key *)
@@ -35,13 +35,20 @@ Section WithHasher.
     if Nat.ltb (Nat.min (length key_path) 256) (length (pp_siblings p)) then Err TooManySiblings
     else
       let relevant := firstn (length (pp_siblings p)) key_path in
-      let new_root := hash_path (terminal_node (pp_terminal p)) relevant (rev (pp_siblings p)) in
-      if node_eqb H new_root root then
-        Ok {| vp_path := relevant;
-              vp_terminal := match pp_terminal p with TLeaf k v => Some (k, v) | TTerm _ => None end;
-              vp_siblings := pp_siblings p;
-              vp_root := root |}
-      else Err RootMismatch.
+      (* a leaf can only be the terminal of a path its own key follows (starts_with) *)
+      if match pp_terminal p with
+         | TLeaf k _ => negb (is_prefix relevant k)
+         | TTerm _ => false
+         end
+      then Err TerminalOutOfPath
+      else
+        let new_root := hash_path (terminal_node (pp_terminal p)) relevant (rev (pp_siblings p)) in
+        if node_eqb H new_root root then
+          Ok {| vp_path := relevant;
+                vp_terminal := match pp_terminal p with TLeaf k v => Some (k, v) | TTerm _ => None end;
+                vp_siblings := pp_siblings p;
+                vp_root := root |}
+        else Err RootMismatch.
 
   Inductive out_of_scope := KeyOutOfScope.
 
